@@ -43,6 +43,8 @@ class Parenthesis(Token):
             if not stack or self.opens[self.name] != stack[-1].name:
                 raise ParenthesesError()
             token = stack.pop()
+            if token.attr.get('is_array') != self.attr.get('is_array'):
+                raise ParenthesesError()  # `)` closing a `{` or vice versa.
             if not token.get_check_n(token):
                 raise ParenthesesError()
             n = self.attr['n_args'] = token.n_args
